@@ -1,5 +1,5 @@
 import SluVerif.Props.C02
-import SluVerif.Props.Checkers
+import SluVerif.Props.CheckersC
 import SluVerif.Props.LU
 #print axioms Slu.factor_identity
 #print axioms Slu.factor_identity_permuted
@@ -21,3 +21,4 @@ import SluVerif.Props.LU
 #print axioms Slu.checkDiagPref_iff
 #print axioms Slu.isUnitLower_iff
 #print axioms Slu.isUpper_iff
+#print axioms Slu.cCheckLU_sound
